@@ -1005,6 +1005,29 @@ class Sym(numbers.Number):
             return self.__trunc__().concretize()
         return self.concretize()
 
+    def _unique_floor(self):
+        n = len(ENG.decisions)
+        if n < len(ENG.prefix) and isinstance(ENG.prefix[n], tuple) and ENG.prefix[n][0] == 'ufloor':
+            ENG.decisions.append(ENG.prefix[n])
+            return ENG.prefix[n][1]
+        val = None
+        r, s_ = ENG.check()
+        if r == 'sat':
+            mv = s_.model().eval(self.z, model_completion=True)
+            try:
+                if z3.is_algebraic_value(mv):
+                    mv = mv.approx(20)
+                cand = math.floor(Fraction(mv.numerator_as_long(), mv.denominator_as_long()))
+            except Exception:
+                cand = None
+            if cand is not None:
+                r1, _ = ENG.check(self.z < cand)
+                r2, _ = ENG.check(self.z >= cand + 1) if r1 == 'unsat' else ('skip', None)
+                if r1 == 'unsat' and r2 == 'unsat':
+                    val = cand
+        ENG.decisions.append(('ufloor', val))
+        return val
+
     def _unique_trunc(self):
         """int(x) for a real term without a fork when the path condition pins it: candidate from a model, then two queries with
         a purely real goal (x < c, x >= c+1) must both be unsat; only for non-negative candidates.  Recorded with the decisions."""
@@ -1100,6 +1123,14 @@ class Sym(numbers.Number):
         key = ('floor', self.z.get_id())
         if key in ENG.uf_memo:
             return ENG.uf_memo[key][1]
+        if ENG.concretize_unique_ints:
+            # harness option: when the path condition pins the floor (two queries with a purely real goal), use the number and
+            # keep integer unknowns out of the path altogether
+            c = self._unique_floor()
+            if c is not None:
+                r = Sym(z3.IntVal(c))
+                ENG.uf_memo[key] = (self, r)
+                return r
         f = ENG.fresh_int('floor')
         ENG.assumes.append(z3.And(z3.ToReal(f) <= self.z, self.z < z3.ToReal(f) + 1))
         r = Sym(f)
@@ -1131,6 +1162,16 @@ class Sym(numbers.Number):
         key = ('rint', self.z.get_id())
         if key in ENG.uf_memo:
             return ENG.uf_memo[key][1]
+        if ENG.concretize_unique_ints:
+            # floor(x + 1/2) pinned by the path condition and no tie possible: the rounded value is that number
+            sh = Sym(self.z + z3.RealVal('1/2'))
+            c = sh._unique_floor()
+            if c is not None:
+                rt, _ = ENG.check(sh.z == c)
+                if rt == 'unsat':
+                    r = Sym(z3.IntVal(c))
+                    ENG.uf_memo[key] = (self, r)
+                    return r
         r = ENG.fresh_int('rint')
         k = ENG.fresh_int('rintk')
         half = z3.RealVal('1/2')
